@@ -133,6 +133,8 @@ _CHECK: BaseCheck | None = None
 
 def _init_worker(modname: str, tier: str, seed: int):
     global _CHECK
+    if _CHECK is not None and type(_CHECK).__module__ == modname and (_CHECK.tier, _CHECK.seed) == (tier, seed):
+        return      # inherited from the parent by fork (workers recycled per task must start cheaply)
     import importlib
     mod = importlib.import_module(modname)
     _CHECK = mod.Check(tier, seed)
@@ -146,6 +148,12 @@ def _run(shard):
         r = ShardResult()
         r.error = f'shard {shard!r}: ' + traceback.format_exc()
         return r
+    finally:
+        try:
+            from .loader import drop_interpreter_cache
+            drop_interpreter_cache()
+        except Exception:   # noqa: BLE001
+            pass
 
 
 def load_findings(pid: str) -> list[dict]:
@@ -207,12 +215,38 @@ def main_run(modname: str, pid: str, tier: str, seed: int, jobs: int) -> int:
             total.add(_run(s))
     else:
         ctx = mp.get_context('fork')
-        pool = ctx.Pool(min(jobs, len(shards)), initializer=_init_worker, initargs=(modname, tier, seed))
+        recycle = getattr(check, 'max_tasks_per_worker', None)
+        if recycle:
+            # gmpy2 leaks one contextvars.Token per context entry (every fpy2 real-arithmetic call), so a
+            # worker that evaluates ~10^7 operations holds GBs: such checks ask for fresh workers per shard
+            global _CHECK
+            _CHECK = check
+        pool = ctx.Pool(min(jobs, len(shards)), initializer=_init_worker, initargs=(modname, tier, seed),
+                        maxtasksperchild=recycle)
         try:
-            for r in pool.imap_unordered(_run, shards, chunksize=1):
+            workers = list(pool._pool)      # (with recycling, replaced workers exit with code 0)
+            it = pool.imap_unordered(_run, shards, chunksize=1)
+            done = 0
+            while done < len(shards):
+                try:
+                    r = it.next(timeout=5.0)
+                except mp.TimeoutError:
+                    # a worker killed from outside (e.g. by the OOM killer) loses its shard and
+                    # multiprocessing.Pool would wait for it for ever: that is a broken check
+                    for w in list(pool._pool):
+                        if w not in workers:
+                            workers.append(w)
+                    dead = [w for w in workers if w.exitcode not in (None, 0)]
+                    if dead:
+                        total.errors.append(f'{len(dead)} pool worker(s) died (exit codes '
+                                            f'{sorted({w.exitcode for w in dead})}); their shards are lost')
+                        break
+                    continue
                 total.add(r)
-            pool.close()        # let workers exit normally so that their scratch directories are removed
-            pool.join()
+                done += 1
+            if not total.errors:
+                pool.close()        # let workers exit normally so that their scratch directories are removed
+                pool.join()
         finally:
             pool.terminate()
     check.finalize(total)
